@@ -134,6 +134,12 @@ def check_call_site(ctx, site: CallSite):
                 callee_name = c.fn.name if c.kind == "fn" else c.cls.name
                 fam2 = conflict(at, tokens(callee_name))
                 if fam2 and fam2 not in roles_of_tokens(tokens(pname)) and c.kind == "fn":
+                    # a callee that is also handed an argument of its own role takes things of both roles (alignRefined(initial,
+                    # refined, ...)): its name then says nothing about this argument
+                    want = roles_of_tokens(tokens(callee_name)).get(fam2)
+                    others = [significant_tokens(a2) for p2, a2 in binding.items() if p2 != pname]
+                    if any(o is not None and roles_of_tokens(o).get(fam2) == want for o in others):
+                        continue
                     found.append(("callee-name", fam2, callee_name, ast.unparse(arg), arg))
         # swapped-argument form: the argument is named exactly like another parameter of the callee, and that
         # parameter is bound to something that is not named like it
